@@ -322,6 +322,32 @@ func c04StartGen(c *core.Ctx) func(yield func(c04StartCase) bool) {
 			}
 			return true
 		})
+		// look-ups inside Init whose errors the caller ignores (one or two from the same node), every
+		// reached callback failing once: a failed creation in the middle of a running one
+		var lookups [][][]int
+		for i := 0; i < 3; i++ {
+			for j := 0; j < 3; j++ {
+				if i == j {
+					continue
+				}
+				lookups = append(lookups, [][]int{{i, j}})
+				if k := 3 - i - j; k > j {
+					lookups = append(lookups, [][]int{{i, j}, {i, k}}, [][]int{{i, k}, {i, j}})
+				}
+			}
+		}
+		allGraphs(3, []int{scen.ENone, scen.EName}, false, func(e [][]int) bool {
+			for _, lz := range []int{0, 2, 4, 6} {
+				for _, lk := range lookups {
+					p := scen.GraphProg{N: 3, Edges: e, Lazy: []bool{false, lz&2 == 2, lz&4 == 4}, Obs: 1, Faults: true, Kinds: "F", Family: "n3-lookup-fault1",
+						InitLookup: lk, SwallowLookup: true}
+					if !yield(c04StartCase{p, 1}) {
+						return false
+					}
+				}
+			}
+			return true
+		})
 	}
 }
 
@@ -336,7 +362,7 @@ func c04Starts(c *core.Ctx) {
 			cc := cs
 			cc.Choices = ch.Choices()
 			key := func(kind string) string {
-				return "C04/" + kind + "/" + core.Hash(p.N, p.Edges, p.Lazy, cc.Choices)
+				return "C04/" + kind + "/" + core.Hash(p.N, p.Edges, p.Lazy, p.InitLookup, cc.Choices)
 			}
 			if o.Panic != "" || o.Abort != "" {
 				c.Outcome("crash")
